@@ -194,9 +194,16 @@ class C04(Monitor):
         if op["kind"] == "withdraw_via_token":
             self.via_token(st)
             return
+        if op["kind"] == "freeze_token":
+            acc.ev()
+            acc.cls("freeze_token", "freeze" if op.get("freeze") else "restore", st.res["r"])
+            acc.count("token_%s_%s" % ("freezes" if op.get("freeze") else "restores", st.res["r"]))
+            return
         if op["kind"] != "withdraw":
             return
         p, a, holder = op["sem"]["pair"], op["sem"]["amount"], op["actor"]
+        if any(t[1] in w.frozen for t in p.assets):
+            acc.count("withdrawals_while_a_pool_token_is_frozen_" + st.res["r"])
         pre, post = st.pre, st.post
         r0, r1, S = pair_state(p, pre)
         acc.ev()
@@ -386,12 +393,31 @@ class C07(Monitor):
             receiver = sem["target"]
         elif kind in ("unauth", "add_decimals", "admin", "owner_admin", "matrix"):
             addressed.add(op["contract"])   # the contract the message is sent to (it may keep attached coins); nobody else
+        # a contract that is neither pair nor router (the factory, a token) is a third party even when a message is addressed to
+        # it: the only change the platform itself makes to it is the arrival of exactly the coins attached to the message
+        strict = None
+        if kind in ("unauth", "add_decimals", "admin", "owner_admin", "matrix") and op["contract"] != w.router and \
+           op["contract"] not in [p_.addr for p_ in w.pairs] and op["contract"] != actor:
+            strict = op["contract"]
+            attached = {}
+            for d_, a_ in (op.get("funds") or []):
+                attached[w.denom_key(d_)] = attached.get(w.denom_key(d_), 0) + int(a_)
         lp_of = dict((p.lp, p) for p in w.pairs)
         problems = []
         diff = pre.diff(post)
         nchanged = 0
+        if strict is not None and st.ok:
+            for aid, amt in attached.items():
+                if aid in [w.denom_key(x) for x in w.t_denoms] and post.get(strict, aid) - pre.get(strict, aid) != amt:
+                    problems.append("%s (addressed, neither pair nor router) changed by %d in %s, %d were attached"
+                                    % (strict, post.get(strict, aid) - pre.get(strict, aid), aid, amt))
         for (acct, aid), (b, a_) in diff.items():
             nchanged += 1
+            if strict is not None and acct == strict:
+                if a_ - b != attached.get(aid, 0):
+                    problems.append("%s (addressed, neither pair nor router) changed by %d in %s, %d were attached"
+                                    % (strict, a_ - b, aid, attached.get(aid, 0)))
+                continue
             if acct == actor or acct in addressed:
                 continue
             if acct == receiver:
